@@ -1,7 +1,7 @@
 SPECIFICATION Spec
 CONSTANTS Mds0 = 2  MdsUp <- MdsUp3  MinPkts = 4  InitPkts = 5  MaxPkts = 6  MinBps = 2  SlotAdd = 0
   PrSet <- PrQ  SmallOn = FALSE  MaxPn = 3  MaxEv = 1000
-  ClampOn = TRUE  RecFloorOn = TRUE  MinBpsOn = TRUE  PruneOn = TRUE  MdsClampOn = FALSE
+  ClampOn = TRUE  RecFloorOn = TRUE  MinBpsOn = TRUE  PruneOn = TRUE  MdsClampOn = FALSE  PacerMdsOn = TRUE
 INVARIANT NoHardViolation
 VIEW View
 CHECK_DEADLOCK FALSE
